@@ -99,7 +99,7 @@ func newGoField(f reflect.StructField) (*GoField, error) {
 	if err != nil {
 		return nil, err
 	}
-	conv, err := fieldGoType.GetConverter()
+	conv, err := fieldGoType.getConverter()
 	if err != nil {
 		return nil, err
 	}
